@@ -18,10 +18,10 @@ func checkC11(c *km.Ctx) {
 	r.NotDecided = []string{"the numerical iff for every prefix length and boundary address (value round trip)", "ASN.1 parsing inside encoding/asn1"}
 	r.Assume = []string{"go/types + go/ssa model the source faithfully", "net.IPNet.Contains, net.CIDRMask and encoding/asn1 behave as documented"}
 
-	r.Rule("R-C11-1", "VerifyIPRestrictedX509CertIP returns true only from decoded.Contains(peer) with the peer parsed from the remoteAddr parameter; no extension or a decode error yields false; the helper passes r.RemoteAddr and the verified leaf", 4)
-	r.Rule("R-C11-2", "checkAuth grants the IP-certificate credential only on the helper's success; chains anchored at the role-requesting CA are never admitted as ordinary certificates", 8)
-	r.Rule("R-C11-3", "refresh: identity = authenticated name, netblocks = those extracted from the authenticated certificate; nothing request-supplied flows into either; only an IP-certificate credential is accepted", 4)
-	r.Rule("R-C11-4", "encoder and decoder agree: BitLength = ones of a 32-bit mask; ceil(BitLength/8) leading bytes copied unmodified; mask = CIDRMask(BitLength, 32); same family constant on both sides", 8)
+	r.Rule("R-C11-1", "VerifyIPRestrictedX509CertIP returns true only from decoded.Contains(peer) with the peer parsed from the remoteAddr parameter; no extension or a decode error yields false; the helper passes r.RemoteAddr and the verified leaf", 2)
+	r.Rule("R-C11-2", "checkAuth grants the IP-certificate credential only on the helper's success; chains anchored at the role-requesting CA are never admitted as ordinary certificates", 5)
+	r.Rule("R-C11-3", "refresh: identity = authenticated name, netblocks = those extracted from the authenticated certificate; nothing request-supplied flows into either; only an IP-certificate credential is accepted", 2)
+	r.Rule("R-C11-4", "encoder and decoder agree: BitLength = ones of a 32-bit mask; ceil(BitLength/8) leading bytes copied unmodified; mask = CIDRMask(BitLength, 32); same family constant on both sides", 4)
 	r.Rule("R-C11-5", "the decoder's copy is bounded by BitLength <= 32 and by the length of the encoded bytes", 1)
 
 	// ---------- R-C11-1
